@@ -89,6 +89,7 @@ func (p *parser) processDeclarations(rules []css_ast.Rule, composesContext *comp
 	rewrittenRules = make([]css_ast.Rule, 0, len(rules))
 	didWarnAboutComposes := false
 	wouldClipColorFlag := false
+	unclippedStart := 0
 	var declarationKeys map[string]struct{}
 
 	// Don't automatically generate the "inset" property if it's not supported
@@ -119,8 +120,10 @@ func (p *parser) processDeclarations(rules []css_ast.Rule, composesContext *comp
 		}
 	}
 
+	var unclippedRules []css_ast.Rule
 	for i := 0; i < len(rules); i++ {
 		rule := rules[i]
+		previousLen := len(rewrittenRules)
 		rewrittenRules = append(rewrittenRules, rule)
 		decl, ok := rule.Data.(*css_ast.RDeclaration)
 		if !ok {
@@ -136,10 +139,15 @@ func (p *parser) processDeclarations(rules []css_ast.Rule, composesContext *comp
 			clone.Value = css_ast.CloneTokensWithoutImportRecords(clone.Value)
 			decl = &clone
 			rule.Data = decl
-			n := len(rewrittenRules) - 2
-			rewrittenRules = append(rewrittenRules[:n], rule, rewrittenRules[n])
+
+			// The previous iteration may have generated more than one rule (e.g.
+			// vendor-prefixed copies of the declaration). Set all of them aside
+			// and add them back after the rules for the clipped copy.
+			unclippedRules = append([]css_ast.Rule{}, rewrittenRules[unclippedStart:previousLen]...)
+			rewrittenRules = append(rewrittenRules[:unclippedStart], rule)
 		} else {
 			wouldClipColor = &wouldClipColorFlag
+			unclippedStart = previousLen
 		}
 
 		switch decl.Key {
@@ -379,6 +387,12 @@ func (p *parser) processDeclarations(rules []css_ast.Rule, composesContext *comp
 			if (prefixes & compat.OPrefix) != 0 {
 				rewrittenRules = p.insertPrefixedDeclaration(rewrittenRules, "-o-", rule.Loc, decl, declarationKeys)
 			}
+		}
+
+		// Add the rules for the unclipped copy back after the clipped copy
+		if unclippedRules != nil {
+			rewrittenRules = append(rewrittenRules, unclippedRules...)
+			unclippedRules = nil
 		}
 
 		// If this loop iteration would have clipped a color, the out-of-gamut
